@@ -17,6 +17,11 @@ table unrolling  `for k, f in (("a", fa), ("b", fb)): BODY` over a *literal* tab
                  `k, f = "a", fa; BODY; k, f = "b", fb; BODY`: the same program, and a table-driven
                  dispatch then reads like the if / elif chain it replaces.  Loops over a flat literal
                  list (the backends' registration loops) are left alone.
+
+counted while    `i = 0; while i < N: BODY; i += 1` (the increment is the last statement of the body, `i`
+                 is not written elsewhere in the body, the body has no `continue`, nothing in it rebinds
+                 or resizes what N reads, and `i` is not read after the loop) is the loop
+                 `for i in range(0, N): BODY`.  Index loops written either way get the same analysis.
 """
 
 from __future__ import annotations
@@ -189,6 +194,81 @@ def unroll_table_loops(tree: ast.Module) -> int:
             return node
 
     U().visit(tree)
+    if count:
+        ast.fix_missing_locations(tree)
+    return count
+
+
+def counted_while_to_for(tree: ast.Module) -> int:
+    import copy
+
+    count = 0
+    MUTATORS = {"append", "pop", "insert", "extend", "remove", "clear", "add", "discard", "update", "popitem", "setdefault", "sort", "reverse"}
+
+    def rewrite_block(block, fn_node):
+        nonlocal count
+        out = []
+        for k, st in enumerate(block):
+            # recurse first
+            for fld in ("body", "orelse", "finalbody"):
+                sub = getattr(st, fld, None)
+                if isinstance(sub, list) and sub and isinstance(sub[0], ast.stmt) and not isinstance(st, (ast.FunctionDef, ast.AsyncFunctionDef, ast.ClassDef)):
+                    setattr(st, fld, rewrite_block(sub, fn_node))
+            for h in getattr(st, "handlers", []) or []:
+                h.body = rewrite_block(h.body, fn_node)
+            new = None
+            if isinstance(st, ast.While) and not st.orelse and st.body:
+                t = st.test
+                idx = bound = None
+                if isinstance(t, ast.Compare) and len(t.ops) == 1:
+                    l, r = t.left, t.comparators[0]
+                    if isinstance(t.ops[0], ast.Lt) and isinstance(l, ast.Name):
+                        idx, bound = l.id, r
+                    elif isinstance(t.ops[0], ast.Gt) and isinstance(r, ast.Name):
+                        idx, bound = r.id, l
+                    elif isinstance(t.ops[0], ast.NotEq) and isinstance(l, ast.Name):
+                        idx, bound = l.id, r
+                last = st.body[-1]
+                inc_ok = False
+                if idx is not None:
+                    if isinstance(last, ast.AugAssign) and isinstance(last.op, ast.Add) and isinstance(last.target, ast.Name) and last.target.id == idx and isinstance(last.value, ast.Constant) and last.value.value == 1:
+                        inc_ok = True
+                    elif isinstance(last, ast.Assign) and len(last.targets) == 1 and isinstance(last.targets[0], ast.Name) and last.targets[0].id == idx and isinstance(last.value, ast.BinOp) and isinstance(last.value.op, ast.Add):
+                        a, b = last.value.left, last.value.right
+                        if (isinstance(a, ast.Name) and a.id == idx and isinstance(b, ast.Constant) and b.value == 1) or (isinstance(b, ast.Name) and b.id == idx and isinstance(a, ast.Constant) and a.value == 1):
+                            inc_ok = True
+                if inc_ok:
+                    body = st.body[:-1]
+                    inner = [n for b in body for n in ast.walk(b)]
+                    bound_names = {n.id for n in ast.walk(bound) if isinstance(n, ast.Name)}
+                    ok = bool(body)
+                    ok = ok and not any(isinstance(n, ast.Continue) for n in inner)
+                    ok = ok and not any(isinstance(n, ast.Name) and n.id == idx and isinstance(n.ctx, (ast.Store, ast.Del)) for n in inner)
+                    ok = ok and not any(isinstance(n, ast.Name) and n.id in bound_names and isinstance(n.ctx, (ast.Store, ast.Del)) for n in inner)
+                    ok = ok and not any(isinstance(n, ast.Call) and isinstance(n.func, ast.Attribute) and n.func.attr in MUTATORS and isinstance(n.func.value, ast.Name) and n.func.value.id in bound_names for n in inner)
+                    ok = ok and not any(isinstance(n, (ast.FunctionDef, ast.Lambda, ast.Yield, ast.YieldFrom)) for n in inner)
+                    ok = ok and isinstance(t.ops[0], (ast.Lt, ast.Gt))  # `!=` only terminates the same way for start <= bound: leave it
+                    # the index must not be read after the loop (a for loop leaves N - 1, the while N)
+                    if ok and fn_node is not None:
+                        inside = {id(n) for n in ast.walk(st)}
+                        reads_elsewhere = [n for n in ast.walk(fn_node) if isinstance(n, ast.Name) and n.id == idx and isinstance(n.ctx, ast.Load) and id(n) not in inside and getattr(n, "lineno", 0) > st.lineno]
+                        ok = not reads_elsewhere
+                    elif fn_node is None:
+                        ok = False
+                    if ok:
+                        start = None
+                        if k > 0 and isinstance(block[k - 1], ast.Assign) and len(block[k - 1].targets) == 1 and isinstance(block[k - 1].targets[0], ast.Name) and block[k - 1].targets[0].id == idx and isinstance(block[k - 1].value, ast.Constant) and isinstance(block[k - 1].value.value, int):
+                            start = block[k - 1].value.value
+                        args = [copy.deepcopy(bound)] if start == 0 else [ast.Constant(start) if start is not None else ast.Name(id=idx, ctx=ast.Load()), copy.deepcopy(bound)]
+                        new = ast.For(target=ast.Name(id=idx, ctx=ast.Store()), iter=ast.Call(func=ast.Name(id="range", ctx=ast.Load()), args=args, keywords=[]), body=body, orelse=[], type_comment=None)
+                        ast.copy_location(new, st)
+                        new._from_while = True
+                        count += 1
+            out.append(new if new is not None else st)
+        return out
+
+    for fn in [n for n in ast.walk(tree) if isinstance(n, (ast.FunctionDef, ast.AsyncFunctionDef))]:
+        fn.body = rewrite_block(fn.body, fn)
     if count:
         ast.fix_missing_locations(tree)
     return count
